@@ -4,7 +4,9 @@ import rxsci.framing.line as line
 import rxsci.framing.length_prefix as lp
 
 from rxsim.runner import Check, Outcome
-from rxsim.bytesim import gen_cuts, cut, drive, collect
+import random
+
+from rxsim.bytesim import gen_cuts, cut, drive, collect, drive_concurrent, merge_order
 
 ALPHA = ['a', 'b', ' ', ',', '"', '\\', '\r', '\x00', '\x04', '\x01', 'é', '€', '\U0001F600', 'z' * 5]
 
@@ -26,7 +28,7 @@ class C15(Check):
     real = ['rxsci.framing.line.frame/unframe, rxsci.framing.length_prefix.frame/unframe (current working tree)', 'RxPY Subject/pipe']
     stubs = ['the sender and the transport (chunk boundaries, truncation)', 'final subscriber']
     assumptions = ['line items contain no newline; length-prefixed items fit the prefix']
-    probe_names = ('cut_inside_prefix', 'cut_between_prefix_and_payload', 'empty_segment', 'one_unit_segments', 'empty_item', 'empty_list',
+    probe_names = ('concurrent_streams', 'item_at_prefix_sign_limit', 'cut_inside_prefix', 'cut_between_prefix_and_payload', 'empty_segment', 'one_unit_segments', 'empty_item', 'empty_list',
                    'truncated', 'swept_all_single_cuts', 'prefix:1', 'prefix:2', 'prefix:4', 'prefix:8', 'order:big', 'line', 'chunk_without_newline')
     quick_cap = 300000
 
@@ -52,7 +54,11 @@ class C15(Check):
             items = []
             for _ in range(n):
                 ln = rng.choice([0, 0, 1, 2, 5, 10, 40, 255 if ps == 1 else 300])
-                b = bytes(rng.choice([10, 0, 1, 4, 255, rng.randrange(256)]) for _ in range(ln))
+                if rng.random() < 0.04:
+                    # sizes around the signed/unsigned limits of the prefix
+                    ln = rng.choice({1: [127, 128, 200, 255], 2: [32767, 32768, 40000, 65535], 4: [32768, 70000], 8: [32768, 70000]}[ps])
+                b = bytes(rng.choice([10, 0, 1, 4, 255, rng.randrange(256)]) for _ in range(min(ln, 300)))
+                b = (b * (ln // max(1, len(b)) + 1))[:ln] if ln > 300 else b
                 items.append(b.hex())
             case['items'] = items
             stream_len = sum(len(i) // 2 + ps for i in items)
@@ -62,6 +68,8 @@ class C15(Check):
                 hot += [off, off + 1, off + ps - 1, off + ps]
                 off += len(i) // 2 + ps
                 hot.append(off)
+        if rng.random() < 0.2 and n:
+            case['concurrent'] = rng.randrange(1 << 30)
         case['cuts'] = gen_cuts(rng, stream_len, hot)
         case['truncate'] = rng.randint(0, stream_len) if (stream_len and rng.random() < 0.3) else None
         case['sweep'] = stream_len <= 300 and rng.random() < (0.5 if tier == 'quick' else 0.8)
@@ -142,6 +150,25 @@ class C15(Check):
             runs += 1
             if not self.one(case, items, stream, flens, cuts, trunc, out):
                 break
+        if not out.violations and case.get('concurrent') and items:
+            # a second and third stream of the same framing alive at the same time (rotations of the item list)
+            rng = random.Random(case['concurrent'])
+            lists = [items, items[1:] + items[:1], list(reversed(items))][:rng.choice([2, 3])]
+            if line_mode:
+                mk_f, mk_u = (lambda i: line.frame()), (lambda i: line.unframe())
+            else:
+                mk_f = lambda i: lp.frame(prefix_size=case['prefix'], byteorder=case['order'])
+                mk_u = lambda i: lp.unframe(prefix_size=case['prefix'], byteorder=case['order'])
+            res = drive_concurrent(lists, mk_f, merge_order(rng, [len(x) for x in lists]))
+            p['concurrent_streams'] += 1
+            joined = [(''.join(o) if line_mode else b''.join(o)) for o, _ in res]
+            cl = [cut(j, gen_cuts(rng, len(j), [1, 2, 3])) for j in joined]
+            res2 = drive_concurrent(cl, mk_u, merge_order(rng, [len(x) for x in cl]))
+            for i, (got_i, t_i) in enumerate(res2):
+                if t_i is None or t_i[0] != 'completed' or got_i != lists[i]:
+                    out.add('concurrent', case['framing'], {'stream': i, 'of': len(lists), 'terminal': repr(t_i),
+                                                            'expected': [repr(x)[:60] for x in lists[i]][:10], 'got': [repr(x)[:60] for x in got_i][:10]})
+                    break
         out.steps = runs
         out.ticks = sum(len(c) + 1 for c, _ in schedules)
         out.digest = repr((stream, [v.to_json() for v in out.violations], runs))
@@ -155,6 +182,8 @@ class C15(Check):
             p['empty_list'] += 1
         if any(len(i) == 0 for i in items):
             p['empty_item'] += 1
+        if not line_mode and any(len(i) >= 2 ** (8 * case['prefix'] - 1) for i in items):
+            p['item_at_prefix_sign_limit'] += 1
         segs = cut(stream, case['cuts'], case.get('truncate'))
         if any(len(s) == 0 for s in segs):
             p['empty_segment'] += 1
